@@ -146,7 +146,8 @@ class C02(EngineACheck):
         def write(path, data):
             with open(path, "w") as f:
                 f.write(data)
-            t = proglib.tick(1 + ch.choice(3, "dt"))
+            # (the clock may advance by well under a millisecond: any distinct mtime counts)
+            t = proglib.tick([1, 2, 3, 0.0004][ch.choice(4, "dt")])
             os.utime(path, (t, t))
 
         for i, path in enumerate(files):
